@@ -371,8 +371,9 @@ func c17Exec(op string) (string, *Violation) {
 // c17Oracle: the documented element -> feature mapping, written independently of the implementation.
 func c17Oracle(c *c17Case, fs []c17Feat) *Violation {
 	// each input element gives rise to at most one feature. An old-style multipolygon (single outer way,
-	// relation without tags of its own) is reported under its outer way's identity, so a way may appear once
-	// per such relation (the way itself is then not converted separately).
+	// relation without tags of its own) is reported under its outer way's identity (the way itself is then not
+	// converted separately); when several such relations share the outer way, each becomes a feature with that
+	// identity: that is the recorded finding duplicate-way-feature-shared-outer, every other duplicate is new.
 	outerOf := map[int]int{}
 	for _, r := range c.o.Relations {
 		if t := r.Tags.Find("type"); t == "multipolygon" || t == "boundary" {
@@ -413,12 +414,18 @@ func c17Oracle(c *c17Case, fs []c17Feat) *Violation {
 		}
 	}
 	seen := map[string]int{}
+	var dup *Violation
 	for _, f := range fs {
 		k := fmt.Sprintf("%s/%d", f.kind, f.id)
 		seen[k]++
 		allowed := 1
 		if f.kind == "way" && outerOf[f.id] > 0 {
 			allowed = outerOf[f.id]
+		}
+		if seen[k] > 1 && seen[k] <= allowed {
+			// the recorded finding: two old-style multipolygon relations sharing their outer way each become a
+			// feature with that way's identity
+			dup = &Violation{Signature: "duplicate-way-feature-shared-outer", Text: fmt.Sprintf("%d features for %s: it is the first outer member of %d multipolygon/boundary relations", seen[k], k, outerOf[f.id])}
 		}
 		if seen[k] > allowed {
 			return &Violation{Signature: "duplicate-feature", Text: fmt.Sprintf("%d features for %s", seen[k], k)}
@@ -621,6 +628,9 @@ func c17Oracle(c *c17Case, fs []c17Feat) *Violation {
 				return &Violation{Signature: "route-segment-invented", Text: fmt.Sprintf("route relation %d: segment %s appears %d times in the joined geometry but %d times in member ways", r.ID, e, n, wantEdges[e])}
 			}
 		}
+	}
+	if dup != nil {
+		return dup
 	}
 	return nil
 }
